@@ -56,7 +56,10 @@ impl Command for CommandImpl {
                 .sort_by(|entry1, entry2| entry1.file_name().cmp(entry2.file_name()))
                 .into_iter();
             for entry in walker {
-                let entry = entry.unwrap();
+                let entry = match entry {
+                    Ok(entry) => entry,
+                    Err(error) => return CommandResult::Crash(error.to_string()),
+                };
                 if is_test_file(&entry) {
                     let file = entry.path().display().to_string().replace("\\", "/");
 
